@@ -128,6 +128,17 @@ let gen_history (idx : int) (prof : eprofile) (oc : out_channel) =
         | `PubPre -> if predef <> "~" then call (Printf.sprintf "PUBPRE %d %d 0 %s" (pick [1; 2]) (rnd 3) (payload ()))
         | `SubPre -> if predef <> "~" then call (Printf.sprintf "SUBPRE %d %d" (pick [1; 2]) (rnd 3))
         | `Adv -> adv (100 + rnd 3000))
+     | Awake when not (List.exists (fun (_, o) -> match o with CxSleep _ -> true | _ -> false) (nmap_to_list !y.y_cl.cl_objs)) ->
+       (* Sleep has returned: the client is awake and idle, the gateway regards it as asleep.  The next sleep
+          cycle (Sleep from the awake state sends nothing), messages meanwhile, a Disconnect, or calls that the
+          monitor does not judge in this state (their answers are queued by the gateway) *)
+       (match pickw [ (8, `Sleep); (4, `Bpub); (3, `Adv); (2, `Disconnect); (1, `Ping); (1, `Publish) ] with
+        | `Sleep -> call (Printf.sprintf "SLEEP %d" (pick [1000; 2000; 3000; 7000]))
+        | `Bpub -> bpub ()
+        | `Adv -> adv (100 + rnd 3000)
+        | `Disconnect -> call "DISCONNECT"
+        | `Ping -> call "PING"
+        | `Publish -> call (Printf.sprintf "PUBLISH %s %d 0 %s" (hx (pick shorts)) (rnd 2) (payload ())))
      | Asleep | Awake ->
        (* the Sleep call blocks until the wake-up cycle is over: messages arrive meanwhile, time passes *)
        (match rnd 3 with 0 -> bpub () | _ -> adv (500 + rnd 3000))
